@@ -185,6 +185,7 @@ impl FrameWriter for QuicFrameWriter {
             frame.session_id,
             frame.len()
         );
+        frame.check_encodable()?;
         let mtu = self.conn.max_datagram_size();
         if mtu.is_none() {
             return Err(IoError::new(
